@@ -8,11 +8,12 @@
  *   client bpp depth be tc rmax gmax bmax rs gs bs enc=<a+b+c|-> cursor=0|1 fbmode=0|1|2
  *            fbmode 0: library's own MallocFrameBuffer (pointer recorded, freed by the harness)
  *                   1: harness allocation with canary bands (256 KiB each side)
- *                   2: as 1, but the allocation fails (returns FALSE) for sizes > 64 MiB
+ *                   2: as 1, but the allocation fails (returns FALSE) for sizes > 8 MiB
  *   seg <n1,n2,...>        read() returns at most n_i bytes (cyclic); "0" = everything available
  *   eos eof|eagain         behaviour at the end of the scripted stream
  *   z <id> <hexz> <hexplain>  (for the model only; harness prints ok)
  *   init <hex>             append bytes, run rfbInitClient (listenSpecified: no connect())
+ *   feed <hex>             append bytes to the server stream (no library call)
  *   msg <hex>              append bytes, run HandleRFBServerMessage once
  *   drain                  run HandleRFBServerMessage until the stream is empty or FALSE (<=10000 calls)
  *   fill x y w h c | copy sx sy w h dx dy | bitmap x y w h <hex>   framebuffer primitives
@@ -31,6 +32,7 @@
 #include <stdarg.h>
 #include <zlib.h>
 #include "minilzo.h"
+#include "turbojpeg.h"
 #include "vh.h"
 
 #define BAND (256 * 1024)
@@ -38,7 +40,9 @@
 
 static rfbClient *cl;
 static int cfd = -1, peerfd = -1;
-static vh_buf srv;                 /* pending server bytes (not yet read by the library) */
+static vh_buf srvb;                /* server bytes; srvo = read offset */
+static size_t srvo = 0;
+#define SRV_LEFT (srvb.n - srvo)
 static vh_buf out;                 /* bytes written by the library during the current op */
 static vh_buf cb;                  /* callback log of the current op */
 static long segs[64]; static int nseg = 0, segi = 0; static long segleft = 0;
@@ -58,7 +62,7 @@ ssize_t read(int fd, void *buf, size_t n) {
   if (!real_read) real_read = (ssize_t (*)(int, void *, size_t))dlsym(RTLD_NEXT, "read");
   if (fd != cfd || cfd < 0) return real_read(fd, buf, n);
   nreads++;
-  if (srv.n == 0) {
+  if (SRV_LEFT == 0) {
     if (eos_eagain) { neagain++; errno = EAGAIN; return -1; }
     return 0;
   }
@@ -68,10 +72,11 @@ ssize_t read(int fd, void *buf, size_t n) {
       if (segleft <= 0) { segleft = segs[segi]; segi = (segi + 1) % nseg; }
       if (segleft > 0 && (size_t)segleft < k) k = (size_t)segleft;
     }
-    if (k > srv.n) k = srv.n;
+    if (k > SRV_LEFT) k = SRV_LEFT;
     if (k == 0) { errno = EAGAIN; return -1; }
-    memcpy(buf, srv.p, k);
-    vh_buf_consume(&srv, k);
+    memcpy(buf, srvb.p + srvo, k);
+    srvo += k;
+    if (srvo == srvb.n) { srvo = 0; srvb.n = 0; }
     if (nseg && segleft > 0) segleft -= (long)k;
     return (ssize_t)k;
   }
@@ -87,7 +92,7 @@ int select(int nfds, fd_set *r, fd_set *w, fd_set *e, struct timeval *t) {
   if (cfd >= 0 && nfds == cfd + 1 && ((r && FD_ISSET(cfd, r)) || (w && FD_ISSET(cfd, w)))) {
     nselects++;
     if (w && FD_ISSET(cfd, w)) return 1;
-    if (srv.n > 0) return 1;
+    if (SRV_LEFT > 0) return 1;
     FD_ZERO(r);
     return eos_eagain ? 0 : 1;      /* virtual time: a timeout elapses at once */
   }
@@ -136,7 +141,8 @@ static rfbBool my_malloc_fb(rfbClient *c) {
   }
   if (fb_base) { free(fb_base); fb_base = NULL; }
   c->frameBuffer = NULL;
-  if (sz > (64u << 20)) { fb_size = 0; return FALSE; }
+  if (fb_mode == 2 && sz > (8u << 20)) { fb_size = 0; return FALSE; }
+  if (sz > (256u << 20)) { fb_size = 0; return FALSE; }
   fb_base = (unsigned char *)malloc((size_t)sz + 2 * BAND);
   if (!fb_base) return FALSE;
   memset(fb_base, CANARY, BAND); memset(fb_base + BAND, 0, (size_t)sz);
@@ -162,20 +168,41 @@ static void cb_cursor(rfbClient *c, int xh, int yh, int w, int h, int bpp) {
       (unsigned long)crc32(0, c->rcSource, (uInt)(w * h * bpp)),
       (unsigned long)crc32(0, c->rcMask, (uInt)(w * h)));
 }
+static char *cb_password(rfbClient *c) { return strdup("verif"); }
 static rfbBool cb_curpos(rfbClient *c, int x, int y) { cbf("pos:%d:%d", x, y); return TRUE; }
 static void cb_led(rfbClient *c, int v, int pad) { cbf("led:%d", v); }
+
+/* crc32 of the framebuffer with every non-colour bit cleared (padding bits are unspecified) */
+static unsigned long masked_crc(void) {
+  size_t n = fb_bytes(), i; int bp = cl->format.bitsPerPixel / 8, k;
+  uint32_t m = ((uint32_t)cl->format.redMax << cl->format.redShift) |
+               ((uint32_t)cl->format.greenMax << cl->format.greenShift) |
+               ((uint32_t)cl->format.blueMax << cl->format.blueShift);
+  unsigned char mb[4], *tmp; unsigned long r;
+  for (k = 0; k < bp; k++) mb[k] = (unsigned char)(cl->format.bigEndian ? (m >> (8 * (bp - 1 - k))) : (m >> (8 * k)));
+  tmp = (unsigned char *)malloc(n ? n : 1);
+  for (i = 0; i < n; i++) tmp[i] = cl->frameBuffer[i] & mb[i % bp];
+  r = crc32(0, tmp, (uInt)n);
+  free(tmp);
+  return r;
+}
 
 /* ------------------------------------------------------------------ output */
 static void put_state(const char *tag, int ok) {
   printf("%s %s", tag, ok ? "T" : "F");
+  if (!ok) {                       /* after FALSE the connection is dead: nothing else is observed */
+    if (!canaries_ok()) printf(" CANARY-DAMAGED");
+    if (getenv("VH_VERBOSE")) { printf(" # cb="); if (cb.n) fwrite(cb.p, 1, cb.n, stdout); }
+    putchar('\n');
+    return;
+  }
   if (ok && cl) {
-    if (cl->frameBuffer) printf(" fb=%d:%d:%08lx", cl->width, cl->height,
-                                (unsigned long)crc32(0, cl->frameBuffer, (uInt)fb_bytes()));
+    if (cl->frameBuffer) printf(" fb=%d:%d:%08lx", cl->width, cl->height, masked_crc());
     else printf(" fb=null");
   }
   printf(" cb="); if (cb.n) fwrite(cb.p, 1, cb.n, stdout); else putchar('-');
   printf(" out="); vh_puthex(stdout, out.p, out.n);
-  printf(" left=%lu", (unsigned long)(srv.n + ((ok && cl) ? cl->buffered : 0)));
+  printf(" left=%lu", (unsigned long)(SRV_LEFT + ((ok && cl) ? cl->buffered : 0)));
   if (!canaries_ok()) printf(" CANARY-DAMAGED");
   putchar('\n');
 }
@@ -223,6 +250,7 @@ int main(void) {
       cl->GotFrameBufferUpdate = cb_update; cl->FinishedFrameBufferUpdate = cb_finished;
       cl->Bell = cb_bell; cl->GotXCutText = cb_cut; cl->GotCursorShape = cb_cursor;
       cl->HandleCursorPos = cb_curpos; cl->HandleKeyboardLedState = cb_led;
+      cl->GetPassword = cb_password;        /* never read a password from stdin (the script) */
       puts("ok");
     } else if (!strcmp(tok[0], "seg") && n == 2) {
       char *p = tok[1]; nseg = 0; segi = 0; segleft = 0;
@@ -237,28 +265,32 @@ int main(void) {
     } else if (!strcmp(tok[0], "init") && n == 2 && cl && !dead) {
       long k; unsigned char *p = hexarg(tok[1], &k); rfbBool r;
       if (!p) { puts("bad-op"); continue; }
-      vh_buf_add(&srv, p, (size_t)k); free(p);
+      vh_buf_add(&srvb, p, (size_t)k); free(p);
       guard_on(); r = rfbInitClient(cl, NULL, NULL); guard_off();
       if (!r) { cl = NULL; dead = 1; cfd = -1; if (fb_base) { free(fb_base); fb_base = NULL; }
-                printf("init F cb="); if (cb.n) fwrite(cb.p, 1, cb.n, stdout); else putchar('-');
-                printf(" out="); vh_puthex(stdout, out.p, out.n); putchar('\n'); }
+                puts("init F"); }
       else {
         printf("init T %d %d name=", cl->width, cl->height);
         vh_puthex(stdout, (unsigned char *)cl->desktopName, strlen(cl->desktopName));
         printf(" cb="); if (cb.n) fwrite(cb.p, 1, cb.n, stdout); else putchar('-');
         printf(" out="); vh_puthex(stdout, out.p, out.n);
-        printf(" left=%lu\n", (unsigned long)(srv.n + cl->buffered));
+        printf(" left=%lu\n", (unsigned long)(SRV_LEFT + cl->buffered));
       }
+    } else if (!strcmp(tok[0], "feed") && n == 2 && cl && !dead) {
+      long k; unsigned char *p = hexarg(tok[1], &k);
+      if (!p) { puts("bad-op"); continue; }
+      vh_buf_add(&srvb, p, (size_t)k); free(p);
+      puts("ok");
     } else if (!strcmp(tok[0], "msg") && n == 2 && cl && !dead) {
       long k; unsigned char *p = hexarg(tok[1], &k); rfbBool r;
       if (!p) { puts("bad-op"); continue; }
-      vh_buf_add(&srv, p, (size_t)k); free(p);
+      vh_buf_add(&srvb, p, (size_t)k); free(p);
       guard_on(); r = HandleRFBServerMessage(cl); guard_off();
       if (!r) dead = 1;
       put_state("msg", r);
     } else if (!strcmp(tok[0], "drain") && n == 1 && cl && !dead) {
       int calls = 0; rfbBool r = TRUE;
-      while (r && (srv.n > 0 || cl->buffered > 0) && calls < 10000) {
+      while (r && (SRV_LEFT > 0 || cl->buffered > 0) && calls < 10000) {
         guard_on(); r = HandleRFBServerMessage(cl); guard_off(); calls++;
       }
       if (!r) dead = 1;
@@ -293,6 +325,20 @@ int main(void) {
       if (lzo1x_1_compress(p, (lzo_uint)k, o, &ol, wrk) != LZO_E_OK) puts("bad-op");
       else { vh_puthex(stdout, o, ol); putchar('\n'); }
       free(o); free(p);
+    } else if (!strcmp(tok[0], "jpeg") && n == 4) {
+      /* helper for the generator: JPEG image w h of pseudo-random smooth content (seed) */
+      int w = atoi(tok[1]), h = atoi(tok[2]), x, y; unsigned long sz = 0;
+      unsigned char *rgb, *o; tjhandle tj = tjInitCompress();
+      if (!tj || w <= 0 || h <= 0 || (long)w * h > (1 << 24)) { puts("bad-op"); continue; }
+      rgb = (unsigned char *)malloc((size_t)w * h * 3); o = (unsigned char *)malloc(TJBUFSIZE(w, h));
+      vh_srand((uint64_t)atoi(tok[3]));
+      { unsigned r0 = (unsigned)vh_rand(), g0 = (unsigned)vh_rand();
+        for (y = 0; y < h; y++) for (x = 0; x < w; x++) {
+          rgb[(y * w + x) * 3] = (unsigned char)(r0 + x); rgb[(y * w + x) * 3 + 1] = (unsigned char)(g0 + y);
+          rgb[(y * w + x) * 3 + 2] = (unsigned char)(x + y); } }
+      if (tjCompress(tj, rgb, w, w * 3, h, 3, o, &sz, TJ_420, 60, 0) == -1) puts("bad-op");
+      else { vh_puthex(stdout, o, sz); putchar('\n'); }
+      tjDestroy(tj); free(rgb); free(o);
     } else if (!strcmp(tok[0], "end") && n == 1) {
       if (cl) {
         unsigned char *own = (fb_mode == 0) ? cl->frameBuffer : NULL;
